@@ -128,7 +128,7 @@ func c09ReaderTable(thorough bool) []string {
 }
 
 // c09ReaderSeeded: grammar-aware mutations + raw random bytes.
-func c09ReaderSeeded(rng *lib.Rng, n int) []string {
+func c09ReaderSeeded(rng *lib.Rng, n int, avoid []c09Construct) []string {
 	out := make([]string, 0, n)
 	form := func(depth int) string { return "" }
 	var gen func(depth int) string
@@ -179,6 +179,14 @@ func c09ReaderSeeded(rng *lib.Rng, n int) []string {
 		}
 		return string(b)
 	}
+	emit := func(s string) {
+		for _, cs := range avoid {
+			if cs.match(s) {
+				return
+			}
+		}
+		out = append(out, s)
+	}
 	for len(out) < n {
 		switch r := rng.Intn(100); {
 		case r < 20: // valid-ish program
@@ -187,28 +195,28 @@ func c09ReaderSeeded(rng *lib.Rng, n int) []string {
 			for i := 0; i < k; i++ {
 				parts = append(parts, gen(0))
 			}
-			out = append(out, strings.Join(parts, " "))
+			emit(strings.Join(parts, " "))
 		case r < 70: // mutated program
 			k := 1 + rng.Intn(3)
 			var parts []string
 			for i := 0; i < k; i++ {
 				parts = append(parts, gen(0))
 			}
-			out = append(out, mutate(strings.Join(parts, " ")))
+			emit(mutate(strings.Join(parts, " ")))
 		case r < 85: // random bytes over the reader alphabet
 			k := 1 + rng.Intn(24)
 			b := make([]byte, k)
 			for i := range b {
 				b[i] = c09ReaderAlphabet[rng.Intn(len(c09ReaderAlphabet))]
 			}
-			out = append(out, string(b))
+			emit(string(b))
 		default: // uniform random bytes
 			k := 1 + rng.Intn(48)
 			b := make([]byte, k)
 			for i := range b {
 				b[i] = byte(rng.Intn(256))
 			}
-			out = append(out, string(b))
+			emit(string(b))
 		}
 	}
 	return out
@@ -222,13 +230,50 @@ func c09ReaderSeeded(rng *lib.Rng, n int) []string {
 type c09Construct struct {
 	name string
 	re   *regexp.Regexp
+	fn   func(string) bool // used when re is nil
 }
 
-var c09ReaderConstructs = []c09Construct{}
+func (c c09Construct) match(s string) bool {
+	if c.re != nil {
+		return c.re.MatchString(s)
+	}
+	return c.fn(s)
+}
+
+// c09Depth: the maximum number of simultaneously open parentheses (no string/comment awareness:
+// an over-approximation is fine for a class of inputs).
+func c09Depth(s string) int {
+	d, max := 0, 0
+	for i := 0; i < len(s); i++ {
+		switch s[i] {
+		case '(':
+			d++
+			if d > max {
+				max = d
+			}
+		case ')':
+			if d > 0 {
+				d--
+			}
+		}
+	}
+	return max
+}
+
+var c09ReaderConstructs = []c09Construct{
+	// #<n>A with n beyond the int range (the rank wraps around)
+	{"sharp-rank-overflow", regexp.MustCompile(`#[0-9]{19,}[aA]`), nil},
+	// #<n>A() with n >= 2: a multi-dimensional array with empty contents
+	{"sharp-array-empty", regexp.MustCompile(`#0*([2-9]|[1-9][0-9]+)[aA]\((\s|;[^\n]*\n|#\|[^|]*\|#)*\)`), nil},
+	// long-float with an exponent of six or more digits (big.Float parsing time grows with it)
+	{"long-float-exponent", regexp.MustCompile(`[0-9.][lL][+-]?[0-9]{6,}`), nil},
+	// more than 10000 unclosed list/vector openings
+	{"nesting-10000", nil, func(s string) bool { return c09Depth(s) >= 10000 }},
+}
 
 func c09ReaderConstruct(in string) string {
 	for _, c := range c09ReaderConstructs {
-		if c.re.MatchString(in) {
+		if c.match(in) {
 			return c.name
 		}
 	}
